@@ -36,7 +36,9 @@ VerifyAccepts(i) ==
   /\ BpVerify(BpTranscript(InPre(i)), i.proof, InRho(i), g[2], i.glen, c, Parse33Ext(i.commit)[2])
 OutVerify(i) ==
   IF ~BpGensParse(i.gens)[1] THEN [ gret |-> 0, icb |-> 0 ]
-  ELSE LET r == B2I(VerifyAccepts(i)) IN [ gret |-> 1, ret |-> r, ret2 |-> r, icb |-> 0 ]
+  \* the op repeats the call on the SAME scratch space (ret2), then calls with rho = 0 (retz: always rejected) and once more with the
+  \* original rho (ret3): verification is a function of its arguments, whatever was verified on that scratch space before
+  ELSE LET r == B2I(VerifyAccepts(i)) IN [ gret |-> 1, ret |-> r, ret2 |-> r, retz |-> 0, ret3 |-> r, icb |-> 0 ]
 
 OutGensParse(i) ==
   LET p == BpGensParse(i.data) IN
